@@ -12,6 +12,9 @@ KINDS = ["ValueError", "KeyError", "ZeroDivisionError", "TypeError", "NameError"
 # Expr as nested tuples:
 #  ("lit", i) ("none",) ("p", i) ("add"|"sub"|"mul"|"lt", a, b) ("if", c, a, b)
 #  ("call", cid, [args]) ("rn", rid) ("ra", rid) ("raise", k) ("try", a, catch, b)   catch: "all"|"deep"|"noneret"|"k<n>"
+#  ("tryre", a, catch, b)   try: a / except <catch>: b; raise      (b is evaluated for the calls it makes)
+#  ("tryfin", a, b)         try: a / finally: b
+#  the blocks b of tryre / tryfin contain no try of their own (the Lean model's `blocksSimple`)
 
 def sexp(e):
     t = e[0]
@@ -29,6 +32,10 @@ def sexp(e):
         return "(call %d %s)" % (e[1], " ".join(sexp(a) for a in e[2]))
     if t == "try":
         return "(try %s %s %s)" % (sexp(e[1]), e[2], sexp(e[3]))
+    if t == "tryre":
+        return "(tryre %s %s %s)" % (sexp(e[1]), e[2], sexp(e[3]))
+    if t == "tryfin":
+        return "(tryfin %s %s)" % (sexp(e[1]), sexp(e[2]))
     raise ValueError(e)
 
 
@@ -50,7 +57,7 @@ def parse_sexp(text):
             v = int(toks[pos[0]])
             pos[0] += 2
             return (head, v)
-        if head in ("add", "sub", "mul", "lt"):
+        if head in ("add", "sub", "mul", "lt", "tryfin"):
             a = one()
             b = one()
             pos[0] += 1
@@ -61,13 +68,13 @@ def parse_sexp(text):
             b = one()
             pos[0] += 1
             return ("if", c, a, b)
-        if head == "try":
+        if head in ("try", "tryre"):
             a = one()
             c = toks[pos[0]]
             pos[0] += 1
             b = one()
             pos[0] += 1
-            return ("try", a, c, b)
+            return (head, a, c, b)
         if head == "call":
             cid = int(toks[pos[0]])
             pos[0] += 1
@@ -87,7 +94,7 @@ def parse_sexp(text):
 def subexprs(e):
     yield e
     t = e[0]
-    if t in ("add", "sub", "mul", "lt"):
+    if t in ("add", "sub", "mul", "lt", "tryfin"):
         yield from subexprs(e[1])
         yield from subexprs(e[2])
     elif t == "if":
@@ -96,15 +103,27 @@ def subexprs(e):
     elif t == "call":
         for a in e[2]:
             yield from subexprs(a)
-    elif t == "try":
+    elif t in ("try", "tryre"):
         yield from subexprs(e[1])
         yield from subexprs(e[3])
+
+
+TRY_KINDS = ("try", "tryre", "tryfin")
+
+
+def blocks_simple(e):
+    """the class of formulas the Lean model describes: no try inside the block of an except-reraise / a finally"""
+    for x in subexprs(e):
+        if x[0] in ("tryre", "tryfin"):
+            if any(y[0] in TRY_KINDS for y in subexprs(x[-1])):
+                return False
+    return True
 
 
 def lambda_ok(e):
     """can the body be given to modelx as one lambda expression (Renderer.render_lambda)?"""
     for x in subexprs(e):
-        if x[0] == "try" or (x[0] == "raise" and x[1] not in Renderer.LAMBDA_RAISE):
+        if x[0] in TRY_KINDS or (x[0] == "raise" and x[1] not in Renderer.LAMBDA_RAISE):
             return False
     return True
 
@@ -273,6 +292,31 @@ class Renderer:
             b = self.emit(e[3], ind + 1)
             self.put(ind + 1, "%s = %s" % (v, b))
             return v
+        if t == "tryre":
+            # try: v = a / except K: <b, for the calls it makes>; raise
+            v = self.tmp()
+            self.put(ind, "try:")
+            a = self.emit(e[1], ind + 1)
+            self.put(ind + 1, "%s = %s" % (v, a))
+            c = e[2]
+            exc = {"all": "Exception", "deep": "DeepReferenceError", "noneret": "NoneReturnedError"}.get(c)
+            if exc is None:
+                exc = KINDS[int(c[1:])]
+            self.put(ind, "except %s:" % exc)
+            self.emit(e[3], ind + 1)
+            self.put(ind + 1, "raise")
+            return v
+        if t == "tryfin":
+            v = self.tmp()
+            self.put(ind, "try:")
+            a = self.emit(e[1], ind + 1)
+            self.put(ind + 1, "%s = %s" % (v, a))
+            self.put(ind, "finally:")
+            n0 = len(self.lines)
+            self.emit(e[2], ind + 1)
+            if len(self.lines) == n0:
+                self.put(ind + 1, "pass")
+            return v
         raise ValueError(e)
 
 
@@ -283,7 +327,7 @@ class Gen:
     the first argument decremented under the guard 0 < p0 (so every chain is finite)."""
 
     def __init__(self, rng, n_rn=2, n_ra=2, catch_all_p=0.15, raise_p=0.06, none_p=0.04,
-                 fail_cell_p=0.0, handled_seq_p=0.0, lam_p=0.0, space_p=0.0):
+                 fail_cell_p=0.0, handled_seq_p=0.0, lam_p=0.0, space_p=0.0, block_p=0.0):
         self.rng = rng
         self.n_rn, self.n_ra = n_rn, n_ra
         self.catch_all_p, self.raise_p, self.none_p = catch_all_p, raise_p, none_p
@@ -297,6 +341,9 @@ class Gen:
         #                 reference: by name (resolved in its own space only) or through an attribute path
         self.fail_cell_p, self.handled_seq_p, self.lam_p = fail_cell_p, handled_seq_p, lam_p
         self.space_p = space_p
+        #  block_p        a sub-expression `try: a except K: <calls>; raise` or `try: a finally: <calls>` - cells
+        #                 evaluated while an exception passes through the formula (or on the way out of a value)
+        self.block_p = block_p
         self.cur_space = 0
         self.no_try = False     # set per program: no formula handles a failure (the regime of the C02 theorems)
         self.failing = []
@@ -324,7 +371,31 @@ class Gen:
             return ("none",)
         return ("lit", self.rng.randint(0, 3))
 
+    def block(self, cid, nparams, arities, depth):
+        """except-reraise / finally around a call (often of a cells that fails) or any expression; the block calls
+        one or two lower cells with simple arguments"""
+        rng = self.rng
+        if self.failing and rng.random() < 0.55:
+            j = rng.choice(self.failing)
+            a = ("call", j, [self.leaf(nparams) for _ in range(arities[j])])
+        elif rng.random() < 0.5:
+            j = rng.randrange(cid)
+            a = ("call", j, [self.leaf(nparams) for _ in range(arities[j])])
+        else:
+            a = self.expr(cid, nparams, arities, depth - 1)
+        calls = []
+        for _ in range(rng.choice([1, 1, 1, 2])):
+            j = rng.randrange(cid)
+            calls.append(("call", j, [self.leaf(nparams) for _ in range(arities[j])]))
+        b = calls[0] if len(calls) == 1 else ("add", calls[0], calls[1])
+        if rng.random() < 0.4:
+            return ("tryfin", a, b)
+        c = "all" if rng.random() < 0.55 else rng.choice(["k0", "k1", "k2", "k3", "noneret"])
+        return ("tryre", a, c, b)
+
     def expr(self, cid, nparams, arities, depth):
+        if self.block_p and depth > 0 and cid > 0 and not self.no_try and self.rng.random() < self.block_p:
+            return self.block(cid, nparams, arities, depth)
         r = self.rng.random()
         if depth <= 0 or r < 0.22:
             return self.leaf(nparams)
